@@ -31,6 +31,14 @@ the pattern may be reached through a local bound once to it / to its bound `.sea
 and tested with `is (not) None`.  R11(b): the constructor evaluator runs module-level (and own-class) helpers the path is
 handed to in place (request_helpers._apply_trailing_slash_option), reads a module-level name bound to a literal as its
 value and binds omitted parameters to their defaults.  R1 already summarises helpers (PathFacts.summary).
+
+Wave 11: R3 exact cells (r3_exact_cells): every return path of `_set_range` that hands out a content range is compared, in each
+cell of (first-byte-pos in {0, >0}) x (last-byte-pos in {marker -1, 0, inside, size-1, >= size}) it can be taken in, with the slice
+RFC 9110 14.1.2 prescribes (last = size-1 only for the marker, else min(last, size-1)).  Feasibility and equality are decided over
+integer difference constraints (c16_helpers.diff_feasible; path guards as a complete DNF, so `a or b` and `a if c else b` at any
+depth are branches; min/max by case split).  W: `end > 0` as the open-end test sends the whole file for `Range: bytes=0-0`.  The
+older "[end] <= size-1" obligation is also discharged by entailment from the path guards (r3_entails_le0), which removes its false
+alarm on `if end == -1 or end >= size: end = size - 1`, on `0 <= end < size - 1` guards and on an exclusive-stop formulation.
 """
 
 from __future__ import annotations
@@ -42,7 +50,8 @@ from .. import flow
 from ..cfg import cfg_of
 from ..model import AnchorError, Class, Func, UNKNOWN, UnknownIdiom, dotted, func_owner_class, short, walk_no_nested
 from .c15_helpers import Provenance
-from .c16_helpers import NONE, UNK, CtorPathEval, Lin, LinExec, PathFacts, seek_position
+from .c16_helpers import (NONE, UNK, CtorPathEval, Lin, LinExec, NotDifference, PathFacts, diff_entails_eq0, diff_feasible, minmax_cases,
+                          seek_position)
 from .common import implied, is_self_attr, single, walk_self
 
 MOD = 'falcon.routing.static'
@@ -232,6 +241,109 @@ def _lin(v) -> Optional[Lin]:
     return v if isinstance(v, Lin) else None
 
 
+def range_cells(S: Lin, E: Lin, N: Lin, rng: str):
+    """The partition of the (first-byte-pos, last-byte-pos, size) space that a
+    SATISFIABLE non-suffix range lives in, with the last byte RFC 9110 section
+    14.1.2 prescribes per cell.  Assumptions (contract of Request.range, decided
+    by R10 / R12 / R14, and of the 416 branch): the range is given, size >= 1,
+    0 <= first <= size - 1, and last is the open-end marker -1 or >= first."""
+    one = Lin.const(1)
+    base = [('null', rng, False), ('le0', one - N), ('le0', -S), ('le0', S - N + one)]
+    starts = [('first-byte-pos 0', [('eq0', S)]), ('first-byte-pos > 0', [('le0', one - S)])]
+    ends = [
+        ('no last-byte-pos (marker -1)', [('eq0', E + one)], N - one),
+        ('last-byte-pos 0', [('eq0', E), ('le0', S - E)], E),
+        ('0 < last-byte-pos < size-1', [('le0', one - E), ('le0', E - N + one + one), ('le0', S - E)], E),
+        ('last-byte-pos == size-1', [('eq0', E - N + one), ('le0', S - E)], E),
+        ('last-byte-pos >= size', [('le0', N - E), ('le0', S - E)], N - one),
+    ]
+    for sl, sc in starts:
+        for el, ec, oracle in ends:
+            cs = base + sc + ec
+            if diff_feasible(cs):
+                yield '%s, %s' % (sl, el), cs, oracle
+
+
+def _guard_choices(guards):
+    out = [[]]
+    for _text, alts in guards:
+        out = [a + b for a in out for b in alts]
+        if len(out) > 256:
+            raise UnknownIdiom('_set_range: more than 256 combinations of branch alternatives on one path')
+    return out
+
+
+def r3_entails_le0(ex, path, lin: Lin) -> bool:
+    """`lin <= 0` follows from the (complete, readable) branch conditions of the
+    path, min/max resolved by case split; False when any of it is outside
+    difference constraints."""
+    if any(alts is None for _t, alts in path.guards):
+        return False
+    try:
+        for ch in _guard_choices(path.guards):
+            for cs, vals in minmax_cases(ex.minmax, ch, [lin]):
+                if diff_feasible(cs) and diff_feasible(cs + [('lt0', -vals[0])]):
+                    return False
+    except (NotDifference, UnknownIdiom):
+        return False
+    return True
+
+
+def r3_exact_cells(run, f, ex, path, rng, size, crange, length, cons, where):
+    """R3 (wave 11), exactness per cell.  On a return path that hands out a
+    content range, for every cell of `range_cells` the path can be taken in, the
+    returned (first, last, total) and length are the ones RFC 9110 14.1.2
+    prescribes:  first = first-byte-pos,  last = size-1 when there is no
+    last-byte-pos (the parser's marker -1) else min(last-byte-pos, size-1),
+    total = size,  length = last - first + 1.  Decided over difference
+    constraints (path guards as a DNF + cell; min/max by case split), so ONLY
+    the marker value -1 may be read as "open ended": a test like `end > 0`
+    puts the legitimate last-byte-pos 0 on the open-ended arm.
+    W: `Range: bytes=0-0` on a file of 2+ bytes is answered
+    `Content-Range: bytes 0-<size-1>/<size>` with the whole file.
+    Returns the number of (path, cell) comparisons made."""
+    S, E = Lin.atom('%s[0]' % rng), Lin.atom('%s[1]' % rng)
+    one = Lin.const(1)
+    unread = [t for t, alts in path.guards if alts is None]
+    readable = [(t, alts) for t, alts in path.guards if alts is not None]
+    choices = _guard_choices(readable)
+    s, e, total = crange
+    n = 0
+    try:
+        for label, cell, oracle_end in range_cells(S, E, size, rng):
+            want = [S, oracle_end, size, oracle_end - S + one]
+            names = ['first', 'last', 'total', 'length']
+            bad = None
+            reached = False
+            for ch in choices:
+                # the guards alone first: a path that cannot be taken in this cell (the suffix form) owes nothing here
+                if not any(diff_feasible(cs0) for cs0, _v in minmax_cases(ex.minmax, cell + ch, [])):
+                    continue
+                for cs, vals in minmax_cases(ex.minmax, cell + ch, [s, e, total, length] + want):
+                    if not diff_feasible(cs):
+                        continue
+                    reached = True
+                    for nm, got, exp in zip(names, vals[:4], vals[4:]):
+                        if not diff_entails_eq0(cs, got - exp):
+                            bad = bad or (nm, got, exp)
+            if not reached:
+                continue
+            if unread:
+                raise UnknownIdiom('_set_range: %s is returned behind a test the linear evaluator does not read (%s)' % (cons, unread[0]))
+            n += 1
+            run.check(bad is None, 'a satisfiable byte range is answered with exactly the slice RFC 9110 14.1.2 prescribes in every cell of '
+                      '(first-byte-pos, last-byte-pos, size): first = first-byte-pos, last = size-1 only when there is NO last-byte-pos '
+                      '(marker -1), else min(last-byte-pos, size-1)', f, cons + ' [exact %s]' % (bad[0] if bad else 'slice'), where=where,
+                      witness=path.raw_conds + (['cell: %s' % label, 'returned %s = %s, prescribed %s' % (bad[0], bad[1].key(), bad[2].key())] if bad else []),
+                      runtime_witness='Range: bytes=0-0 (the one-byte probe) on a file of 2+ bytes: the whole file as bytes 0-<size-1>/<size> instead of '
+                                      'the first byte')
+            if bad is not None:
+                break
+    except NotDifference as exc:
+        raise UnknownIdiom('_set_range: %s: the range arithmetic %s is outside difference constraints' % (cons, exc))
+    return n
+
+
 def r3_range(run):
     p = run.project
     f = p.func(SETRANGE)
@@ -248,6 +360,7 @@ def r3_range(run):
     n_ranged = 0
     n_raise = 0
     n_plain = 0
+    n_cells = 0
 
     def nonpos(path, x, strict=False):
         """x <= 0 (strict: x < 0) from the path conditions, from st_size >= 0
@@ -350,7 +463,8 @@ def r3_range(run):
         pos = seek_position(seeks[-1][3], size, seeks[-1][4], '_set_range')[0] if seeks else None
         run.check(pos is not None and pos == s, 'the handle is positioned at the reported first byte', f, cons + ' [seek]', where=where,
                   witness=wit + ['seek position=%s start=%s' % (pos.key() if pos is not None else None, s.key())], runtime_witness=rw)
-        run.check(ex.le_by_minmax(e, size - one), 'the reported last byte is at most size - 1', f, cons + ' [end]', where=where,
+        run.check(ex.le_by_minmax(e, size - one) or r3_entails_le0(ex, path, e - size + one), 'the reported last byte is at most size - 1', f, cons + ' [end]',
+                  where=where,
                   witness=wit + ['end=%s' % e.key()], runtime_witness='Range: bytes=0-999999 on a small file reports an end beyond the file')
         # first byte inside the file: start < size from a guard, or (suffix range)
         # start - size == max(a, b, ..) with every argument negative on this path
@@ -359,13 +473,16 @@ def r3_range(run):
                   witness=wit + ['start=%s, conditions: %s' % (s.key(), [(k, l.key()) for k, l in path.conds])],
                   runtime_witness='Range: bytes=<size>- answered 206 with an empty or negative length instead of 416')
         run.check(path.excludes_zero(size), 'zero-byte files ignore Range (no ranged response when size == 0)', f, cons + ' [size>0]', where=where, witness=wit)
+        n_cells += r3_exact_cells(run, f, ex, path, rng, size, (s, e, total), length, cons, where)
+    if n_ranged and not n_cells:
+        raise AnchorError('_set_range: no ranged return path is reachable for a satisfiable first-last / first- range')
     if n_ranged < 2:
         raise AnchorError('_set_range: fewer than two ranged return paths (%d)' % n_ranged)
     if not n_raise:
         raise AnchorError('_set_range never raises HTTPRangeNotSatisfiable')
     if not n_plain:
         raise AnchorError('_set_range never returns the plain file (no content range) for a request without Range')
-    run.sample({'rule': 'R3', 'paths': len(paths), 'ranged_returns': n_ranged})
+    run.sample({'rule': 'R3', 'paths': len(paths), 'ranged_returns': n_ranged, 'exact_cells': n_cells})
     # _BoundedFile
     c = p.cls(BOUNDED)
     init = p.lookup_method(c.qual, '__init__')
